@@ -10,6 +10,7 @@ import (
 	"crypto/tls"
 	"errors"
 	"fmt"
+	"io"
 	"net"
 	"sort"
 	"strings"
@@ -46,6 +47,31 @@ type scenario struct {
 	// Timeout still bounds each attempt); "counting" the caller's context is of a type of the caller's own that counts what is
 	// registered with it (context.AfterFunc protocol): when Dial returns, whatever Dial derived from it has been released
 	CallerCtx string `json:"caller_context,omitempty"`
+	// ConnType: "" the Dialer is instantiated with the concrete type *fakeConn; "interface" with the interface type io.Closer
+	// (Dialer is generic in the connection type: Dialer[net.Conn], Dialer[io.ReadWriteCloser] are what an application with
+	// connections of several kinds uses). Everything the property says holds for both.
+	ConnType string `json:"conn_type,omitempty"`
+}
+
+// dialAs runs Dial on a Dialer[T]; the scenario's DialFunc produces *fakeConn values, wrap/unwrap convert them to and from T.
+func dialAs[T any](sc scenario, res *ech.Resolver, df func(ctx context.Context, network, addr string, tc *tls.Config) (*fakeConn, error), wrap func(*fakeConn) T, unwrap func(T) *fakeConn, ctx context.Context, addr string) (*fakeConn, error) {
+	d := &ech.Dialer[T]{MaxConcurrency: sc.MaxConc, ConcurrencyDelay: time.Duration(sc.Delay) * unit, Timeout: time.Duration(sc.Timeout) * unit, RequireECH: sc.RequireECH}
+	if sc.BadPublicName {
+		d.PublicName = strings.Repeat("p", 300)
+	}
+	if res != nil {
+		d.Resolver = res
+	}
+	d.DialFunc = func(ctx context.Context, network, addr string, tc *tls.Config) (T, error) {
+		c, err := df(ctx, network, addr, tc)
+		if c == nil {
+			var zero T
+			return zero, err
+		}
+		return wrap(c), err
+	}
+	c, err := d.Dial(ctx, "tcp", addr, nil)
+	return unwrap(c), err
 }
 
 // countingCtx is a context type of the caller's own. The standard library registers a derived context with such a parent through
@@ -174,10 +200,7 @@ func run(sc scenario, choose vs.Chooser, traceOn bool) (*trace, *vs.Sched) {
 		addrs = []string{"h.example:443"}
 	}
 	s := vs.RunOpt(choose, 20000, traceOn, func() {
-		d := &ech.Dialer[*fakeConn]{MaxConcurrency: sc.MaxConc, ConcurrencyDelay: time.Duration(sc.Delay) * unit, Timeout: time.Duration(sc.Timeout) * unit, RequireECH: sc.RequireECH}
-		if sc.BadPublicName {
-			d.PublicName = strings.Repeat("p", 300)
-		}
+		var resolver *ech.Resolver
 		if slow {
 			srv := &dohmem.Server{}
 			dns.VerifRoundTripper = srv
@@ -199,9 +222,9 @@ func run(sc scenario, choose vs.Chooser, traceOn bool) (*trace, *vs.Sched) {
 				}
 				return dohmem.Answer{}
 			}
-			d.Resolver, _ = ech.NewResolver("https://doh.test/dns-query")
+			resolver, _ = ech.NewResolver("https://doh.test/dns-query")
 		}
-		d.DialFunc = func(ctx context.Context, network, addr string, tc *tls.Config) (*fakeConn, error) {
+		dialFunc := func(ctx context.Context, network, addr string, tc *tls.Config) (*fakeConn, error) {
 			ti := -1
 			for i := range sc.Plans {
 				if addrOf(i) == addr && sc.Plans[i].Kind != "same-address-as-previous" {
@@ -275,6 +298,12 @@ func run(sc scenario, choose vs.Chooser, traceOn bool) (*trace, *vs.Sched) {
 				return a.conn, nil
 			}
 			a.result = "fail"
+			if p.Kind == "fail-wrapping-canceled" {
+				// a failure of the attempt's own making whose error wraps context.Canceled (an inner context of the DialFunc was
+				// cancelled: an aborted proxy CONNECT, an inner address race) while neither Dial's nor the caller's context is: it is
+				// a failed attempt like any other
+				return nil, fmt.Errorf("attempt %d failed: %w: inner dial: %w", ti, errAttemptFailed, context.Canceled)
+			}
 			return nil, fmt.Errorf("attempt %d failed: %w", ti, errAttemptFailed)
 		}
 		cst := &countingState{}
@@ -303,7 +332,16 @@ func run(sc scenario, choose vs.Chooser, traceOn bool) (*trace, *vs.Sched) {
 		if sc.RequireECH {
 			dctx = ech.VerifContextWithResult(ctx, "h.example", rr)
 		}
-		tr.ret, tr.retErr = d.Dial(dctx, "tcp", strings.Join(addrs, ","), nil)
+		if sc.ConnType == "interface" {
+			tr.ret, tr.retErr = dialAs(sc, resolver, dialFunc, func(c *fakeConn) io.Closer { return c }, func(c io.Closer) *fakeConn {
+				if c == nil {
+					return nil
+				}
+				return c.(*fakeConn)
+			}, dctx, strings.Join(addrs, ","))
+		} else {
+			tr.ret, tr.retErr = dialAs(sc, resolver, dialFunc, func(c *fakeConn) *fakeConn { return c }, func(c *fakeConn) *fakeConn { return c }, dctx, strings.Join(addrs, ","))
+		}
 		tr.retAt, tr.returned = vs.Elapsed(), true
 		tr.ctxLive = cst.live
 		tr.events = append(tr.events, event{"return", nil, vs.Elapsed()})
@@ -589,6 +627,9 @@ func scenarios(thorough bool) []scenario {
 							continue
 						}
 						out = append(out, scenario{Plans: plans, MaxConc: mc, Delay: dt[0], Timeout: dt[1], CancelAt: c})
+						if n <= 2 && dt[0] == 2 {
+							out = append(out, scenario{Plans: plans, MaxConc: mc, Delay: dt[0], Timeout: dt[1], CancelAt: c, ConnType: "interface"})
+						}
 						if n <= 2 && c <= 0 && dt[0] == 2 {
 							out = append(out, scenario{Plans: plans, MaxConc: mc, Delay: dt[0], Timeout: dt[1], CancelAt: c, BadPublicName: true})
 						}
@@ -621,6 +662,10 @@ func scenarios(thorough bool) []scenario {
 		{{"hang", 0}},
 		{{"fail", 0}},
 		{{"ok", 1}, {"hang", 0}},
+		{{"fail-wrapping-canceled", 1}},
+		{{"fail-wrapping-canceled", 0}, {"fail", 1}},
+		{{"fail", 0}, {"fail-wrapping-canceled", 1}, {"hang", 0}},
+		{{"fail-wrapping-canceled", 1}, {"ok", 3}},
 		{},
 	} {
 		for _, c := range []int{-1, 1} {
@@ -629,6 +674,7 @@ func scenarios(thorough bool) []scenario {
 				out = append(out, scenario{Plans: plans, MaxConc: 2, Delay: 2, Timeout: 5, CancelAt: c, CallerCtx: "deadline40"})
 			}
 			out = append(out, scenario{Plans: plans, MaxConc: 2, Delay: 2, Timeout: 5, CancelAt: c, CallerCtx: "counting"})
+			out = append(out, scenario{Plans: plans, MaxConc: 2, Delay: 2, Timeout: 5, CancelAt: c, ConnType: "interface"})
 			if len(plans) <= 1 {
 				out = append(out, scenario{Plans: plans, MaxConc: 2, Delay: 2, Timeout: 5, CancelAt: c, CallerCtx: "counting", BadPublicName: true})
 			}
